@@ -1,1 +1,155 @@
-// harnesses for vu_backend_req
+// Child module of vhost::vhost_user::backend_req (the backend-to-frontend request proxy `Backend`).
+//
+// C18 (proxy half), C01 (backend-initiated requests on the wire), C06 (ack parsing), C07 (proxy refuses
+// shared-object / shared-memory requests until enabled), C10 (lock held across request + ack).
+use super::*;
+use crate::vhost_user::verif::ghost as g;
+use crate::vhost_user::verif::spec;
+use crate::vhost_user::verif::spec::be;
+use std::mem::ManuallyDrop;
+use std::os::unix::io::FromRawFd;
+
+const LENT_FD: RawFd = 70;
+
+static mut NODE_PTR: (*const Mutex<BackendInternal>, u64) = (std::ptr::null(), 0x51c0_77aa_0003_c10c);
+static mut LOCK_FREE_AT_SYSCALL: (bool, u64) = (false, 0x51c0_77aa_0004_c10c);
+fn c10_probe() {
+    // SAFETY: single-threaded harness
+    unsafe {
+        if !NODE_PTR.0.is_null() {
+            if let Ok(guard) = (*NODE_PTR.0).try_lock() {
+                LOCK_FREE_AT_SYSCALL.0 = true;
+                drop(guard);
+            }
+        }
+    }
+}
+unsafe fn px_recvmsg(fd: RawFd, iovecs: &mut [libc::iovec], in_fds: &mut [RawFd]) -> vmm_sys_util::errno::Result<(usize, usize)> {
+    c10_probe();
+    g::ghost_recvmsg(fd, iovecs, in_fds)
+}
+fn px_sendmsg<D: vmm_sys_util::sock_ctrl_msg::IntoIovec>(fd: RawFd, out_data: &[D], out_fds: &[RawFd]) -> vmm_sys_util::errno::Result<usize> {
+    c10_probe();
+    g::ghost_sendmsg(fd, out_data, out_fds)
+}
+
+/// `op`: backend request code (6..=10); `class`: ack header class (0 conformant, 1 foreign code,
+/// 2 REPLY bit missing, 3 version 2) - concrete per harness, see vu_frontend.rs for why.
+fn e_proxy(op: u32, class: usize) {
+    // SAFETY: descriptor 5 is never used for real I/O
+    let b = ManuallyDrop::new(Backend::from_stream(unsafe { UnixStream::from_raw_fd(5) }));
+    let reply_ack: bool = kani::any();
+    let so: bool = kani::any();
+    let shm: bool = kani::any();
+    b.set_reply_ack_flag(reply_ack);
+    b.set_shared_object_flag(so);
+    b.set_shmem_flag(shm);
+    let body: [u8; 40] = kani::any();
+    let ack_val: u64 = kani::any();
+    let nfds: usize = kani::any();
+    kani::assume(nfds <= 1);
+    // SAFETY: ghost state
+    unsafe {
+        NODE_PTR.0 = Arc::as_ptr(&b.inner);
+        g::G.lent_lo = LENT_FD;
+        g::G.lent_hi = LENT_FD + 1;
+        let code = if class == 1 { op + 1 } else { op };
+        let flags = match class { 2 => 0x1, 3 => 0x6, _ => 0x5 };
+        g::put_hdr(0, code, flags, 8);
+        g::put64(12, ack_val);
+        g::G.rx_len = 20;
+        g::G.rx_closed = false;
+        g::G.rx_nfds = nfds;
+    }
+    let ev = ManuallyDrop::new(unsafe { std::fs::File::from_raw_fd(LENT_FD) });
+    let (r, size, gate, with_fd) = match op {
+        be::SHARED_OBJECT_ADD | be::SHARED_OBJECT_REMOVE | be::SHARED_OBJECT_LOOKUP => {
+            let mut ub = [0u8; 16];
+            ub.copy_from_slice(&body[..16]);
+            let m = VhostUserSharedMsg { uuid: uuid::Uuid::from_bytes(ub) };
+            let r = match op {
+                be::SHARED_OBJECT_ADD => b.shared_object_add(&m),
+                be::SHARED_OBJECT_REMOVE => b.shared_object_remove(&m),
+                _ => b.shared_object_lookup(&m, &*ev),
+            };
+            (r, 16usize, so, op == be::SHARED_OBJECT_LOOKUP)
+        }
+        _ => {
+            let mut pad = [0u8; 7];
+            pad.copy_from_slice(&body[1..8]);
+            let m = VhostUserMMap {
+                shmid: body[0], padding: pad, fd_offset: spec::rd64(&body, 8), shm_offset: spec::rd64(&body, 16),
+                len: spec::rd64(&body, 24), flags: spec::rd64(&body, 32),
+            };
+            let r = if op == be::SHMEM_MAP { b.shmem_map(&m, &*ev) } else { b.shmem_unmap(&m) };
+            (r, 40usize, shm, op == be::SHMEM_MAP)
+        }
+    };
+    let ok = r.is_ok();
+    let okval = if let Ok(v) = &r { *v } else { 1 };
+    std::mem::forget(r);
+    kani::cover!(if class == 0 { ok && reply_ack } else { !ok && reply_ack && gate }, "witness: acknowledged request succeeds / foreign ack is refused");
+    // SAFETY: ghost state
+    unsafe {
+        if !gate {
+            assert!(!ok && g::G.tx_len == 0 && g::G.rx_calls == 0, "C07/C18: request refused until the feature is enabled, nothing on the wire");
+        } else {
+            // C01/C18: the request as the specification encodes it
+            assert!(g::tx32(0) == op, "C01: backend request code");
+            assert!(g::tx32(4) == (spec::F_VERSION_1 | if reply_ack { spec::F_NEED_REPLY } else { 0 }), "C18: NEED_REPLY iff reply-ack negotiated");
+            assert!(g::tx32(8) == size as u32 && g::G.tx_len == 12 + size, "C01: size = payload");
+            assert!(g::tx64(12) == spec::rd64(&body, 0) && g::tx64(20) == spec::rd64(&body, 8), "C01/C18: body bytes equal the arguments");
+            if size == 40 {
+                assert!(g::tx64(28) == spec::rd64(&body, 16) && g::tx64(36) == spec::rd64(&body, 24) && g::tx64(44) == spec::rd64(&body, 32));
+            }
+            assert!(g::G.tx_first_nfds == with_fd as usize && (!with_fd || g::G.tx_first_fd0 == LENT_FD) && !g::G.tx_late_fds, "C18: descriptor where the request defines one");
+            assert!(!g::G.blocked, "C18: no indefinite wait");
+            if !reply_ack {
+                assert!(g::G.rx_calls == 0 && ok && okval == 0, "C18: without REPLY_ACK no acknowledgement is awaited");
+            } else {
+                let conformant = class == 0 && nfds == 0;
+                if ok {
+                    assert!(conformant && ack_val == 0 && okval == 0, "C18/C06: success only for a zero ack that answers this request");
+                }
+                if conformant {
+                    assert!(ok == (ack_val == 0), "C18: the call succeeds iff the handler returned zero");
+                }
+            }
+        }
+        assert!(!g::G.lent_closed, "C09: lent descriptor closed");
+        assert!(!LOCK_FREE_AT_SYSCALL.0, "C10: proxy lock free during a socket call of the transaction");
+        assert!((*NODE_PTR.0).try_lock().is_ok(), "C10: proxy lock released on return");
+    }
+}
+
+macro_rules! e_px {
+    ($name:ident, $op:expr, $class:expr) => {
+        #[kani::proof]
+        #[kani::unwind(5)]
+        #[kani::stub(vmm_sys_util::sock_ctrl_msg::raw_recvmsg, px_recvmsg)]
+        #[kani::stub(vmm_sys_util::sock_ctrl_msg::raw_sendmsg, px_sendmsg)]
+        #[kani::stub(libc::close, g::ghost_close)]
+        #[kani::stub(<std::os::fd::OwnedFd as std::ops::Drop>::drop, g::ghost_ownedfd_drop)]
+        #[kani::stub(std::alloc::handle_alloc_error, g::ghost_alloc_error)]
+        fn $name() {
+            e_proxy($op, $class)
+        }
+    };
+}
+
+// @harness props=C18,C01,C06,C07,C10 tier=quick reach=off timeout=500 bound="Backend::shared_object_add: all uuid bytes, three negotiated flags, ack value and 0..=1 ack descriptors symbolic; conformant ack header" stubs="raw_recvmsg/raw_sendmsg (ghost socket + lock probe), close, OwnedFd::drop, handle_alloc_error"
+e_px!(e_px_shared_object_add, 6, 0);
+// @harness props=C18,C01,C06,C07,C10 tier=thorough reach=off timeout=500 bound="Backend::shared_object_remove: as shared_object_add" stubs="raw_recvmsg/raw_sendmsg (ghost socket + lock probe), close, OwnedFd::drop, handle_alloc_error"
+e_px!(e_px_shared_object_remove, 7, 0);
+// @harness props=C18,C01,C06,C07,C09,C10 tier=quick reach=off timeout=500 bound="Backend::shared_object_lookup (with descriptor): as shared_object_add" stubs="raw_recvmsg/raw_sendmsg (ghost socket + lock probe), close, OwnedFd::drop, handle_alloc_error"
+e_px!(e_px_shared_object_lookup, 8, 0);
+// @harness props=C18,C01,C06,C07,C09,C10 tier=quick reach=off timeout=500 bound="Backend::shmem_map (with descriptor): all 40 body bytes, three flags, ack value, 0..=1 ack descriptors; conformant ack header" stubs="raw_recvmsg/raw_sendmsg (ghost socket + lock probe), close, OwnedFd::drop, handle_alloc_error"
+e_px!(e_px_shmem_map, 9, 0);
+// @harness props=C18,C01,C06,C07,C10 tier=thorough reach=off timeout=500 bound="Backend::shmem_unmap: as shmem_map" stubs="raw_recvmsg/raw_sendmsg (ghost socket + lock probe), close, OwnedFd::drop, handle_alloc_error"
+e_px!(e_px_shmem_unmap, 10, 0);
+// @harness props=C18,C06 tier=quick reach=off timeout=500 bound="Backend::shared_object_add answered by an ack for another request code" stubs="raw_recvmsg/raw_sendmsg (ghost socket + lock probe), close, OwnedFd::drop, handle_alloc_error"
+e_px!(e_px_add_foreign_ack, 6, 1);
+// @harness props=C18,C06 tier=thorough reach=off timeout=500 bound="Backend::shmem_map answered by bytes without the REPLY flag" stubs="raw_recvmsg/raw_sendmsg (ghost socket + lock probe), close, OwnedFd::drop, handle_alloc_error"
+e_px!(e_px_map_noreplyflag, 9, 2);
+// @harness props=C18,C06 tier=thorough reach=off timeout=500 bound="Backend::shared_object_lookup answered by a version-2 header" stubs="raw_recvmsg/raw_sendmsg (ghost socket + lock probe), close, OwnedFd::drop, handle_alloc_error"
+e_px!(e_px_lookup_version2, 8, 3);
